@@ -149,26 +149,55 @@ func c10WireSeq(ops []c10op, obs []c10obs) string {
 
 var c10comps = []string{"a", "b", "ab", "a.b"}
 
-func c10RandKey(r *rand.Rand, pool []string) string {
-	if len(pool) > 0 && r.Intn(10) < 7 {
-		k := pool[r.Intn(len(pool))]
-		switch r.Intn(6) {
-		case 0: // a prefix of a known key
-			c := splitKey(k)
-			return strings.Join(c[:1+r.Intn(len(c))], "/")
-		case 1: // below a known key
-			if len(splitKey(k)) < 3 {
-				return k + "/" + c10comps[r.Intn(len(c10comps))]
-			}
+// c10RandKey draws a key; mode biases it: 'x' an existing key, 'p' a proper prefix of an
+// existing key, 'n' new or anything.
+func c10RandKey(r *rand.Rand, pool []string, mode byte) string {
+	fresh := func() string {
+		d := 1 + r.Intn(3)
+		c := make([]string, d)
+		for i := range c {
+			c[i] = c10comps[r.Intn(len(c10comps))]
 		}
-		return k
+		return strings.Join(c, "/")
 	}
-	d := 1 + r.Intn(3)
-	c := make([]string, d)
-	for i := range c {
-		c[i] = c10comps[r.Intn(len(c10comps))]
+	if len(pool) == 0 {
+		return fresh()
 	}
-	return strings.Join(c, "/")
+	k := pool[r.Intn(len(pool))]
+	c := splitKey(k)
+	x := r.Intn(100)
+	switch mode {
+	case 'x':
+		switch {
+		case x < 70:
+			return k
+		case x < 80 && len(c) < 3: // below a file
+			return k + "/" + c10comps[r.Intn(len(c10comps))]
+		case x < 90:
+			return strings.Join(c[:1+r.Intn(len(c))], "/")
+		}
+	case 'p':
+		switch {
+		case x < 60 && len(c) > 1:
+			return strings.Join(c[:1+r.Intn(len(c)-1)], "/")
+		case x < 75:
+			return k
+		case x < 85:
+			return ""
+		}
+	default:
+		switch {
+		case x < 25:
+			return k // overwrite
+		case x < 45: // sibling
+			return strings.Join(append(append([]string{}, c[:len(c)-1]...), c10comps[r.Intn(len(c10comps))]), "/")
+		case x < 55 && len(c) < 3:
+			return k + "/" + c10comps[r.Intn(len(c10comps))]
+		case x < 62 && len(c) > 1: // a directory's name as a file key
+			return strings.Join(c[:len(c)-1], "/")
+		}
+	}
+	return fresh()
 }
 
 func c10RandSeq(r *rand.Rand) []c10op {
@@ -187,22 +216,29 @@ func c10RandSeq(r *rand.Rand) []c10op {
 			for j := range v {
 				v[j] = byte('p' + r.Intn(4))
 			}
-			o = c10op{Op: "store", Key: c10RandKey(r, pool), Val: string(v)}
+			o = c10op{Op: "store", Key: c10RandKey(r, pool, 'n'), Val: string(v)}
 			pool = append(pool, o.Key)
 		case x < 50:
-			o = c10op{Op: "load", Key: c10RandKey(r, pool)}
+			o = c10op{Op: "load", Key: c10RandKey(r, pool, 'x')}
 		case x < 62:
-			o = c10op{Op: "delete", Key: c10RandKey(r, pool)}
-		case x < 72:
-			o = c10op{Op: "exists", Key: c10RandKey(r, pool)}
-		case x < 80:
-			o = c10op{Op: "stat", Key: c10RandKey(r, pool)}
-		default:
-			k := c10RandKey(r, pool)
-			if r.Intn(5) == 0 {
-				k = ""
+			m := byte('x')
+			if r.Intn(2) == 0 {
+				m = 'p'
 			}
-			o = c10op{Op: "list", Key: k, Rec: r.Intn(2) == 0}
+			k := c10RandKey(r, pool, m)
+			if k == "" {
+				k = c10RandKey(r, pool, 'x')
+			}
+			o = c10op{Op: "delete", Key: k}
+		case x < 72:
+			o = c10op{Op: "exists", Key: c10RandKey(r, pool, 'x')}
+		case x < 80:
+			o = c10op{Op: "stat", Key: c10RandKey(r, pool, 'x')}
+		default:
+			o = c10op{Op: "list", Key: c10RandKey(r, pool, 'p'), Rec: r.Intn(2) == 0}
+		}
+		if o.Key == "" && o.Op != "list" {
+			o.Key = "a"
 		}
 		ops = append(ops, o)
 	}
